@@ -111,7 +111,8 @@ def main():
             if rc_clean not in (0,):
                 print('  clean output tail:', (o1 or '')[-400:])
         # 3. our check
-        env = dict(os.environ, VERIF_REPO=wt, VERIF_CACHE=os.path.join(ROOT, '.cache', 'selftest'))
+        cache = os.path.join(ROOT, '.cache', 'selftest.%d' % os.getpid())
+        env = dict(os.environ, VERIF_REPO=wt, VERIF_CACHE=cache)
         t0 = time.time()
         p = subprocess.run(['./check', prop, '--tier', tier], cwd=ROOT, env=env, stdout=subprocess.PIPE, stderr=subprocess.STDOUT, text=True, errors='replace')
         keys = re.findall(r'^  key=(\S+)', p.stdout, re.M)
@@ -144,7 +145,7 @@ def main():
     finally:
         sh(['git', '-C', '/repo', 'worktree', 'remove', '--force', wt])
         shutil.rmtree(tmp, ignore_errors=True)
-        shutil.rmtree(os.path.join(ROOT, '.cache', 'selftest', 'build'), ignore_errors=True)
+        shutil.rmtree(os.path.join(ROOT, '.cache', 'selftest.%d' % os.getpid()), ignore_errors=True)
 
 
 if __name__ == '__main__':
